@@ -369,6 +369,7 @@ struct ParserState {{
     current: Token,
     truncation_mark: MarkTruncation,
     diag_count: usize,
+    error_since_advance: bool,
 }}
 pub struct Parser<'a> {{
     cst: Cst<'a>,
@@ -525,6 +526,7 @@ impl<'a> Parser<'a> {{
             current: self.current,
             truncation_mark: self.cst.data.mark_truncation(),
             diag_count: diags.len(),
+            error_since_advance: self.error_since_advance,
         }}
     }}
     fn set_state(
@@ -535,6 +537,7 @@ impl<'a> Parser<'a> {{
         self.pos = state.pos;
         self.current = state.current;
         diags.truncate(state.diag_count);
+        self.error_since_advance = state.error_since_advance;
         for i in state.truncation_mark.node_count..self.cst.data.nodes.len() {{
             if let Node::Rule(rule, _) = self.cst.data.nodes[i] {{
                 self.delete_node(rule, NodeRef(i));
